@@ -338,6 +338,8 @@ pub fn generate(thorough: bool, seed: u64, out: &mut dyn Write) {
         }
         writeln!(out, "chain api={} tree={} {}", api, tree, ps.join(" ")).unwrap();
     }
+    // byte offsets of 2^32 and more (sparse files), last: they stay together in one shard
+    generate_big(thorough, seed, out);
 }
 
 pub fn run(case: &str, input: &str) -> String {
@@ -348,7 +350,16 @@ pub fn run(case: &str, input: &str) -> String {
         return "bad-case".into();
     }
     let api = f[0].to_string();
-    let tmp = Scratch::new("c03");
+    let big = case.starts_with("applybig ");
+    let (tmp, _guard) = if big {
+        // files of 4–32 GiB, sparse: see `big_setup`
+        let Some(real) = big_real_bytes(case) else { return "bad-case".into() };
+        let Some(tmp) = big_setup(real) else { return "bad-case".into() };
+        let g = DiskGuard::new(tmp.path().to_path_buf(), real + real / 2 + (64 << 20));
+        (tmp, Some(g))
+    } else {
+        (Scratch::new("c03"), None)
+    };
     let root = tmp.path().join("root");
     if materialise(&root, &es).is_err() {
         return "bad-case".into();
@@ -391,6 +402,253 @@ pub fn run(case: &str, input: &str) -> String {
     }
     let res = if res.starts_with("panic") { "panic".to_string() } else { res };
     format!("{} {}", res, dump_tree(&root, true))
+}
+
+// ---------------------------------------------------------------------------------------------
+// `applybig`: byte offsets of 2^32 and more.  The files are sparse (a seek past the end and a
+// write leave a hole), so a 32 GiB data file costs a few pages; `c03fs::dump_tree` hashes it
+// without reading the holes.  What is *really* written is the payloads and the wiped ranges
+// (`wipe` writes its zeros): the generator keeps those small except for the few cases that wipe
+// 4 GiB + a little (the only way to exercise `block_delete_number << 7` past 32 bits).
+
+#[repr(C)]
+struct RLimit {
+    cur: u64,
+    max: u64,
+}
+unsafe extern "C" {
+    fn setrlimit(resource: i32, rlim: *const RLimit) -> i32;
+    fn signal(sig: i32, handler: usize) -> usize;
+}
+
+/// the largest file length a big case may produce (the generator stays below 2^35 + 2^33)
+const BIG_MAX_LEN: u64 = 1 << 36;
+/// the most a single case may really write (wipe + payload), checked before the case runs
+const BIG_MAX_REAL: u64 = 5 << 30;
+
+/// bytes the reference implementation really writes for the commands of a case line: payloads,
+/// wiped ranges of AddData (`128·del`), the zeroed range of Delete/ExpandData (`128·num`), AddFile blocks
+fn big_real_bytes(case: &str) -> Option<u64> {
+    let mut total: u64 = 0;
+    for f in case.split(' ') {
+        if let Some(t) = f.strip_prefix("tree=") {
+            total += t.len() as u64 * 64; // a pattern `~n.s` is short; bound generously below
+            for e in t.split(';') {
+                if let Some((_, c)) = e.split_once(':') {
+                    if let Some(r) = c.strip_prefix('~') {
+                        total += r.split_once('.')?.0.parse::<u64>().ok()?;
+                    }
+                }
+            }
+        }
+        let Some(cs) = f.strip_prefix("cmds=") else { continue };
+        for c in cs.split(',') {
+            let p: Vec<&str> = c.split(':').collect();
+            match p[0] {
+                "A" if p.len() == 7 => total += 128 * p[5].parse::<u64>().ok()? + 4096,
+                "D" | "E" if p.len() == 6 => total += 128 * p[5].parse::<u64>().ok()? + 4096,
+                _ => total += c.len() as u64 + 4096,
+            }
+        }
+    }
+    Some(total)
+}
+
+/// Scratch directory for a big case, after the one-time set-up:
+/// * `RLIMIT_FSIZE` = 2^36 with SIGXFSZ ignored: no file of the process can become longer than 64 GiB
+///   (a write beyond fails with EFBIG → `Err`); this does **not** bound the space a sparse file occupies —
+///   that is `DiskGuard`'s job;
+/// * the hole-skipping hash is checked against the plain one on this file system.
+/// A case that really writes a lot goes to tmpfs only when there is memory to spare, else to disk.
+fn big_setup(real: u64) -> Option<Scratch> {
+    static ONCE: std::sync::Once = std::sync::Once::new();
+    ONCE.call_once(|| unsafe {
+        signal(25, 1); // SIGXFSZ, SIG_IGN
+        let l = RLimit { cur: BIG_MAX_LEN, max: BIG_MAX_LEN };
+        setrlimit(1, &l); // RLIMIT_FSIZE
+    });
+    if real > BIG_MAX_REAL {
+        return None;
+    }
+    let mut base = Scratch::default_base();
+    if real > (256 << 20) && base.starts_with("/dev/shm") && std::env::var("VERIF_TMP").is_err() {
+        let avail = std::fs::read_to_string("/proc/meminfo")
+            .ok()
+            .and_then(|m| {
+                m.lines().find_map(|l| l.strip_prefix("MemAvailable:").and_then(|r| r.trim().trim_end_matches("kB").trim().parse::<u64>().ok()))
+            })
+            .unwrap_or(0)
+            * 1024;
+        if avail < 3 * real + (4 << 30) {
+            base = Scratch::disk_base();
+        }
+    }
+    let tmp = Scratch::new_in(&base, "c03big");
+    static CHECKED: std::sync::Mutex<Vec<String>> = std::sync::Mutex::new(Vec::new());
+    let mut c = CHECKED.lock().unwrap();
+    if !c.iter().any(|b| *b == base) {
+        if !fnv_selfcheck(tmp.path()) {
+            eprintln!("C03: hole-skipping FNV disagrees with the plain one on {}", base);
+            return None;
+        }
+        c.push(base);
+    }
+    Some(tmp)
+}
+
+/// Watches the space really occupied below a directory (`st_blocks`, not the apparent lengths) while
+/// a big case runs.  An implementation that materialises a hole — writes the gigabytes instead of
+/// seeking over them — would otherwise fill the tmpfs / disk long before the per-case timeout:
+/// past the budget the scratch directory is removed and the process aborts (the check records
+/// `abort:SIGABRT` as that case's answer, which is a mismatch, and restarts the run stage).
+struct DiskGuard {
+    done: std::sync::Arc<std::sync::atomic::AtomicBool>,
+    th: Option<std::thread::JoinHandle<()>>,
+}
+
+fn occupied(dir: &std::path::Path) -> u64 {
+    use std::os::unix::fs::MetadataExt;
+    let mut n = 0u64;
+    if let Ok(rd) = std::fs::read_dir(dir) {
+        for e in rd.flatten() {
+            let Ok(m) = e.metadata() else { continue };
+            if m.is_dir() {
+                n += occupied(&e.path());
+            } else {
+                n += m.blocks() * 512;
+            }
+        }
+    }
+    n
+}
+
+impl DiskGuard {
+    fn new(dir: std::path::PathBuf, budget: u64) -> Self {
+        use std::sync::atomic::Ordering;
+        let done = std::sync::Arc::new(std::sync::atomic::AtomicBool::new(false));
+        let d2 = done.clone();
+        let th = std::thread::spawn(move || {
+            while !d2.load(Ordering::Relaxed) {
+                std::thread::sleep(std::time::Duration::from_millis(10));
+                if occupied(&dir) > budget {
+                    let _ = std::fs::remove_dir_all(&dir);
+                    eprintln!("C03: big case occupies more than {} bytes on disk: aborting", budget);
+                    std::process::abort();
+                }
+            }
+        });
+        DiskGuard { done, th: Some(th) }
+    }
+}
+impl Drop for DiskGuard {
+    fn drop(&mut self) {
+        self.done.store(true, std::sync::atomic::Ordering::Relaxed);
+        if let Some(t) = self.th.take() {
+            let _ = t.join();
+        }
+    }
+}
+
+/// 2^32 bytes in 128-byte blocks
+const B4G: u64 = 1 << 25;
+
+fn big_offsets(rng: &mut Rng, n_random: usize) -> Vec<u64> {
+    // around the 2^32 boundary, then random ones up to ~2^35 bytes
+    let mut v = vec![B4G - 1, B4G, B4G + 1];
+    for i in 0..n_random {
+        v.push(match i % 3 {
+            0 => rng.range(B4G, 2 * B4G),          // 4–8 GiB
+            1 => rng.range(2 * B4G, 8 * B4G),      // 8–32 GiB
+            _ => (rng.range(1, 8) << 25) | rng.below(4), // k·4 GiB + a few blocks: truncation to u32 lands near 0
+        });
+    }
+    v
+}
+
+fn generate_big(thorough: bool, seed: u64, out: &mut dyn Write) {
+    let mut rng = Rng::new(seed, "C03big");
+    let t0 = target(0);
+    let apis = ["zipatch", "game"];
+    let mut k = 0usize;
+    let mut emit = |out: &mut dyn Write, k: &mut usize, tree: &str, cmds: String| {
+        // both entry points, alternating (the boot entry point once, below)
+        let api = apis[*k % 2];
+        *k += 1;
+        writeln!(out, "applybig api={} tree={} cmds={}", api, tree, cmds).unwrap();
+    };
+    let offs = big_offsets(&mut rng, if thorough { 24 } else { 3 });
+    for (i, off) in offs.iter().enumerate() {
+        let seedb = rng.below(256);
+        // AddData: one or two blocks at the offset, small wipe behind (crosses 2^32 for off = 2^25 − 1 … − 3)
+        emit(out, &mut k, "-", format!("{},A:4:0:0:{}:{}:~{}.{}", t0, off, rng.below(3), 128 * rng.range(1, 2), seedb));
+        // Expand / Delete at the offset (Delete needs the repository directory)
+        emit(out, &mut k, "-", format!("{},E:4:256:1:{}:{}", t0, off, rng.range(1, 3)));
+        emit(out, &mut k, "sqpack/ffxiv/", format!("{},D:10:0:2:{}:{}", t0, off, rng.range(1, 3)));
+        // AddFile at a byte offset (not block aligned), raw or deflated
+        let boff = match i {
+            0 => (1u64 << 32) - 5,
+            1 => 1u64 << 32,
+            2 => (1u64 << 32) + 128,
+            _ => 128 * off + rng.below(128),
+        };
+        let blk = if i % 2 == 0 { format!("r~{}.{}", rng.range(1, 300), seedb) } else { zblock(rng.range(20, 600) as usize, seedb as usize) };
+        emit(out, &mut k, "-", format!("FA:{}:0:{}:{}", boff, rng.pick(&FILES), blk));
+    }
+    // wipe ranges that start below 2^32 and end above it
+    for (off, blocks, del) in [(B4G - 1, 1u64, 2u64), (B4G - 2, 1, 3), (B4G - 3, 2, 4), (B4G - 4, 1, 2)] {
+        emit(out, &mut k, "-", format!("{},A:4:0:0:{}:{}:~{}.{}", t0, off, del, 128 * blocks, rng.below(256)));
+    }
+    // the seeded demo: a record near the start, a second one 4 GiB further in the same file (a 32-bit
+    // offset puts it on top of the first), as one patch and as a chain of two
+    emit(out, &mut k, "-", format!("{},A:4:0:0:3:0:~128.7,A:4:0:0:{}:0:~128.9", t0, B4G + 3));
+    writeln!(out, "applybig api=zipatch tree=- cmds={},A:4:0:0:3:0:~128.7 cmds={},A:4:0:0:{}:0:~128.9", t0, t0, B4G + 3).unwrap();
+    // an old file with content, then a write far behind its end (gap = zeros), then one inside the gap
+    emit(
+        out,
+        &mut k,
+        "sqpack/ffxiv/040000.win32.dat0:~300.20;d0/f0:~40.22",
+        format!("{},A:4:0:0:{}:1:~256.1,E:4:0:0:{}:2,D:4:0:0:{}:1,FA:{}:0:d0/f0:r~50.2", t0, 2 * B4G + 7, B4G, B4G - 1, (1u64 << 33) + 1),
+    );
+    // through BootData::apply_patch
+    writeln!(out, "applybig api=boot tree=ffxivboot.ver:31 cmds={},A:0:0:0:{}:1:~128.3,FA:{}:0:f1.bin:r0102", t0, B4G + 2, (1u64 << 32) + 2).unwrap();
+    // compositions of a few huge writes in one file, random order
+    let n = if thorough { 200 } else { 6 };
+    for _ in 0..n {
+        let mut cs = vec![target(*rng.pick(&[0u16, 2]))];
+        let file = rng.below(2);
+        let m = rng.range(2, 5);
+        for _ in 0..m {
+            let off = match rng.below(4) {
+                0 => rng.below(8),
+                1 => B4G - 2 + rng.below(5),
+                2 => (rng.range(1, 8) << 25) | rng.below(4),
+                _ => rng.range(B4G, 8 * B4G),
+            };
+            cs.push(match rng.below(4) {
+                0 | 1 => {
+                    let n = 128 * rng.range(1, 3) as usize;
+                    format!("A:4:0:{}:{}:{}:{}", file, off, rng.below(4), rand_content(&mut rng, n))
+                }
+                2 => format!("E:4:0:{}:{}:{}", file, off, rng.range(1, 4)),
+                _ => format!("D:4:0:{}:{}:{}", file, off, rng.range(1, 4)),
+            });
+        }
+        if rng.chance(1, 3) {
+            let boff = match rng.below(3) {
+                0 => (1u64 << 32) - 1 - rng.below(300),
+                _ => rng.range(1u64 << 32, 1u64 << 35),
+            };
+            let n = rng.range(1, 400) as usize;
+            cs.push(format!("FA:{}:{}:{}:r{}", boff, rng.below(3), rng.pick(&FILES[..7]), rand_content(&mut rng, n)));
+        }
+        emit(out, &mut k, "sqpack/ffxiv/", cs.join(","));
+    }
+    // wipe counts of 2^25 blocks and more: 4 GiB of zeros are really written, so very few of these,
+    // one after the other (the check gives consecutive cases to one process)
+    let wipes: Vec<(u64, u64)> = if thorough { vec![(1, B4G + 1), (B4G - 1, B4G), (0, B4G + 3)] } else { vec![(1, B4G + 1)] };
+    for (off, del) in wipes {
+        emit(out, &mut k, "-", format!("{},A:4:0:0:{}:{}:~128.5", t0, off, del));
+    }
 }
 
 pub fn dump(out: &mut dyn Write) {}
